@@ -59,11 +59,13 @@ def lattice_defn(points):
     lead, term = g("LeadingSize", "none"), g("TerminationChar", "none")
     if term == "5800":
         codec = "UTF-16LE"
+    elif term == "00" and codec == "UTF-16LE":
+        term = "0000"           # the termination character must be one character of the declared encoding
     delim = WHOLE
     if lead != "none":
         delim = {"k": "lead", "tc": [], "tag": int(lead), "unit": 1}
     elif term != "none":
-        delim = {"k": "term", "tc": list(bytes.fromhex(term)), "tag": 0, "unit": 2 if term == "5800" else 1}
+        delim = {"k": "term", "tc": list(bytes.fromhex(term)), "tag": 0, "unit": 2 if len(term) == 4 else 1}
     xdoc.add_param(d, "TXT", xdoc.ptype_sb({"k": "str", "len": {"k": "fixed", "n": 48}, "delim": delim, "codec": codec}))
     xdoc.add_param(d, "TXT2", xdoc.ptype_sb({"k": "str", "len": dict(ls), "delim": WHOLE, "codec": "US-ASCII"}))
     tcal = g("TimeEncoding.scale/offset", "none")
